@@ -15,5 +15,14 @@ extern int g_ww_fd; extern g_off_t g_ww_off; extern unsigned g_ww_hit; extern ch
 #define WW_SAME (g_ww_hit == V_OLD(g_ww_hit) && g_ww_val == V_OLD(g_ww_val))
 /* ghost names of the (at most three) entries of the requested-range list dl->range->index */
 struct zckChunk; extern struct zckChunk *g_dr1, *g_dr2, *g_dr3;
-#define GHOST_DL_DEFS int g_ww_fd = -1; g_off_t g_ww_off; unsigned g_ww_hit; char g_ww_val; struct zckChunk *g_dr1, *g_dr2, *g_dr3;
+/* An ABSENT entry is named by the dummy node DR_NONE (whose src is a dummy chunk), not by NULL: CBMC evaluates
+ * history expressions (V_OLD(g_drK->src->valid)) unconditionally at function entry and does not support
+ * conditionals inside them, so every name must be dereferenceable.  Harnesses call DR_NONE_INIT(). */
+extern struct zckChunk g_dr_none_node, g_dr_none_tgt;
+#define DR_NONE (&g_dr_none_node)
+#define DR_ABSENT(r) ((r) == DR_NONE)
+#define DR_NAME(p) ((p) != NULL ? (p) : DR_NONE)
+#define DR_PTR(r) (DR_ABSENT(r) ? NULL : (r))
+#define DR_NONE_INIT() do { g_dr_none_node.src = &g_dr_none_tgt; g_dr_none_node.next = NULL; } while(0)
+#define GHOST_DL_DEFS int g_ww_fd = -1; g_off_t g_ww_off; unsigned g_ww_hit; char g_ww_val; struct zckChunk *g_dr1, *g_dr2, *g_dr3; struct zckChunk g_dr_none_node, g_dr_none_tgt;
 #endif
